@@ -24,3 +24,9 @@ s = re.sub(r"`fixed:` lines \(\d+,", f"`fixed:` lines ({nfix},", s)
 s = re.sub(r"and `known:` lines \(\d+ class patterns", f"and `known:` lines ({nkn} class patterns", s)
 open(p, 'w').write(s)
 print(nfix, nkn)
+import subprocess
+n = subprocess.check_output("git -C /repo log --oneline 6a988bd..HEAD | grep -c ' fix:'", shell=True).decode().strip()
+s = open(p).read()
+s = re.sub(r"checks found \(\d+ repair commits, \d+ recorded defects\)", f"checks found ({n} repair commits, {nkn} recorded defects)", s)
+s = re.sub(r"\n\d+ `fix:` commits; each was triggered", f"\n{n} `fix:` commits; each was triggered", s)
+open(p, 'w').write(s)
